@@ -763,6 +763,26 @@ def oracle_case(impl_case):
 
 # ------------------------------------------------------------------ engine with cache
 
+def safe_oracle_case(c):
+    """oracle_case, but an implementation trace the oracle cannot digest (e.g. after a panic
+    inside the library left a world half-updated) is a failed case for every property served,
+    not an internal error of the driver."""
+    try:
+        return oracle_case(c)
+    except Exception as e:  # noqa: BLE001
+        import traceback
+        si = 0
+        for i, st in enumerate(c.get("steps", [])):
+            if st.get("ret") == "panic" or any(any("dump-panicked" in f for f in w.get("flags", [])) for w in st.get("worlds", {}).values()):
+                si = i
+                break
+        else:
+            si = max(0, len(c.get("steps", [])) - 1)
+        return {"fails": [(si, "*", "implementation trace not interpretable by the oracle (%s: %s) %s"
+                           % (type(e).__name__, e, traceback.format_exc().strip().split("\n")[-3:]))],
+                "known": [], "corners": set()}
+
+
 def engine(seed, tier):
     """Run (or fetch from cache) the world-history run. Returns dict with
     'cases' (ops), 'impl' & 'model' parsed traces, 'oracle' results, stats."""
@@ -795,7 +815,7 @@ def engine(seed, tier):
             pass
         impl += parse_trace(s["impl"]) if os.path.exists(s["impl"]) else []
         model += parse_trace(s["model"]) if os.path.exists(s["model"]) else []
-    oracle = [oracle_case(c) for c in impl]
+    oracle = [safe_oracle_case(c) for c in impl]
     opk = Counter()
     lens = []
     for c in cases:
